@@ -155,6 +155,8 @@ PROPS = {
             dict(mode="detx", name="condvar", quick=3, thorough=32, nontrivial=r"sync\.condvar\.to_wake@0 q\.pop 0 0 SyncBlocker"),
             dict(mode="det", name="barrier", quick=300, thorough=6000, nontrivial=r"sync\.condvar\.to_wake@0 q\.pop 0 0 SyncBlocker"),
             dict(mode="det", name="waitgroup", quick=300, thorough=6000, nontrivial=r"sync\.condvar\.to_wake@0 q\.push SyncBlocker"),
+            # real runtime: coroutine + thread waiters, real time-outs, 1-2 coroutine waiters cancelled at seeded moments
+            dict(mode="live", name="condvar_live", quick=360, thorough=6000, nontrivial=r"sync\.condvar\.to_wake@0 q\.pop 0 0 SyncBlocker", timeout=600),
         ],
         trusted_base=TB_COMMON + [
             "ThreadPark is replaced by the controller's virtual token in det mode; a time-out is a schedule choice (only while the token is not set)",
@@ -165,11 +167,11 @@ PROPS = {
         ],
         assumptions=[
             "fair scheduling for the no-stranded-waiter theorem (quiescence form)",
-            "coroutine actors and cancellation (Env.cancel, the w9unlock path) are in the model and the theorems but not exercised by the det-mode (thread) scenarios",
+            "coroutine actors and cancellation (Env.cancel at wend, the w9unlock path, a cancelled waiter forwarding) are exercised only by the live family condvar_live (real runtime: histories are recorded, not reproducible from the seed); in live traces the park outcome is decided at the first event after the re-lock (see CondvarReplay.lean)",
             "one mutex per condvar (the two-mutex panic of verify() is not modelled)",
             "Barrier generation_id is an unbounded Nat in the model (the code wraps at 2^64)",
         ],
-        rule="det mode: 2-5 threads; consumers wait / wait_while for a permit, bystanders wait_timeout once (virtual time-outs; woken without time-out they re-notify themselves, after a time-out the condvar must), producers add one permit per consumer and notify_one (under or after the lock) / notify_all, extra notify_one / notify_all without the lock; barrier: n = 1-5 threads x 1-4 rounds on one Barrier(n); waitgroup: 2-5 threads with 1-2 handles each, clone/drop/wait; seeded random schedules; non-trivial = a notifier popped a waiter's blocker (condvar, barrier) / a wait blocked (waitgroup); distinct = SHA-1 of the canonical trace",
+        rule="det mode: 2-5 threads; consumers wait / wait_while for a permit, bystanders wait_timeout once (virtual time-outs; woken without time-out they re-notify themselves, after a time-out the condvar must), producers add one permit per consumer and notify_one (under or after the lock) / notify_all, extra notify_one / notify_all without the lock; condvar_live (live mode, 1-3 workers): 2-5 coroutines + 1-3 threads as consumers (wait / wait_while loop), producers (notify_one under the lock with an optional hold, after the unlock, notify_all), bystanders (wait_timeout 2-5 ms real time) and 1-2 victim coroutines (wait / wait_timeout) cancelled after a delay, once inside the wait, or when a notification is announced; barrier: n = 1-5 threads x 1-4 rounds on one Barrier(n); waitgroup: 2-5 threads with 1-2 handles each, clone/drop/wait; seeded random schedules; non-trivial = a notifier popped a waiter's blocker (condvar, barrier) / a wait blocked (waitgroup); distinct = SHA-1 of the canonical trace",
     ),
     "C12": dict(
         lean_props=["MayVerif.Props.C12"],
@@ -373,4 +375,40 @@ PROPS["C18"] = dict(
     ],
     rule="live mode, real sockets: io_timeout = 2-4 (2-7 thorough) operations on ONE socket (TCP, Unix stream, UDP; coroutine or thread reader): `idle` read with a 20-64.999 ms time-out (whole and non-integral milliseconds) and nothing sent (must fail with TimedOut, elapsed >= time-out, no upper bound), `fed` read with 400-700 ms and data after 0-3 ms (data, or a not-early time-out on a slow machine and the data in a later read), `after` read with NO or a 4x longer time-out right after a timed one, data after the earlier deadline (must not fail / return early); io_cancel = a coroutine blocked in TCP/Unix read (optionally with a 1.5 s time-out armed, optionally after consuming 1-2000 bytes) or in accept is cancelled after 0-3000 us by main or a thread, 0-1 (0-2) other connections transfer concurrently: join returns the Cancel error, the victim's captured state is dropped exactly once, its peer reads EOF (after the harness-deferred close), the other transfers pass the stream oracle; non-trivial = a timer fired or was disarmed / a cancel was issued; distinct = SHA-1 of the canonical trace",
     explanation="PARTIAL BY NATURE: kernel and clock = environment; promptness measured, never asserted. Findings on the pinned tree are reported (pending_fixes/README-io.md), two of them witnessed in Lean, and reproduced by the families io_timeout_race / io_cancel_shared / io_unix_churn (not part of the default run)",
+)
+
+PROPS["C13"] = dict(
+    lean_props=["MayVerif.Props.C13"],
+    families=[
+        dict(mode="live", name="panic", quick=240, thorough=3000, nontrivial=r"child\.panic", timeout=600),
+        # one scenario per process (the check starts min(12, count) processes): known finding F10 taints a process
+        dict(mode="live", name="panicscope", quick=12, thorough=12, nontrivial=r"child\.panic", timeout=600),
+    ],
+    trusted_base=TB_COMMON + [
+        "rustc's unwinding (every guard on the stack is dropped exactly once, innermost first) and the generator crate's catch_unwind / panic capture are taken by contract",
+        "pool.rs and Done::drop_coroutine are not hooked: the pool / local-data steps of worker_survives are modelled from the source and tied to the code only by the oracles (coroutines spawned after the panics complete on every worker)",
+        "thread::panicking() is modelled as 'this coroutine is unwinding' (false of the code when a coroutine parks while it unwinds: known finding F10)",
+        "locks are used without contention in family panic: waiter hand-over is C05/C12; the model here uses their specification held -> released",
+    ],
+    assumptions=[
+        "family panicscope is checked by its oracles only (its traces are not replayed): it exists to exhibit F10, whose consequences deviate from every model that trusts thread::panicking()",
+        "select! owners re-raising an arm's panic (F9) belong to C16",
+    ],
+    rule="live mode: 2-5 rounds x 2-5 coroutines (panic before/after yields, holding a Mutex and/or RwLock write guard; holders cancelled while holding; unrelated workers) over the reused stack pool, 8 fresh coroutines afterwards; non-trivial = at least one injected panic; distinct = SHA-1 of the canonical trace",
+)
+
+PROPS["C14"] = dict(
+    lean_props=["MayVerif.Props.C14"],
+    families=[dict(mode="live", name="scope", quick=360, thorough=6000, nontrivial=r"scope\.spawn", timeout=600)],
+    trusted_base=TB_COMMON + [
+        "Blocker park/unpark is the binary token of C02; the cancel behaviour of a park (returns at once for a cancelled coroutine, raises Cancel unless already unwinding) is modelled from yield_now.rs / cancel.rs and is not in this layer's trace (cancel.rs is kept out of the filter, see README-C14: use-after-free in subscribe under perturbation)",
+        "rustc's unwinding (Drop for Scope runs when f or a dtor unwinds) is taken by contract",
+        "thread::panicking() is modelled as 'this coroutine is unwinding' (known finding F10)",
+        "the variant of JoinState::join (pinned / F5.patch) is detected from the trace at the first scoped join; scope_exit_after_children is proved for the fixed variant, _partial + witness for the pinned one",
+    ],
+    assumptions=[
+        "cqueue::scope / select! (Cqueue::drop polls until Finished) belongs to C16; nesting join! inside a select! arm is the safe-code way to cancel a scope owner and is covered here by the canceller actor",
+        "same-coroutine lexical nesting scope(|s| scope(|s2| ..)) is not in the model: nesting is through children that own scopes",
+    ],
+    rule="live mode: trees of 1-4 scoped children (some owning nested scopes or join!), explicit joins, at most one fault (owner panic in f, leaf panic, owner cancelled inside f or while waiting); non-trivial = at least one scoped spawn; distinct = SHA-1 of the canonical trace",
 )
